@@ -540,6 +540,121 @@ def sharded_part(R, n):
                 R.disagree("HttpShard fetch vs model", case, [h12._short(impl), log], [h12._short(mo), want])
 
 
+def special_forms_part(R, quick):
+    """Deterministic datasets, read over HTTP through ONE accessor and compared with what was stored and
+    with the local read:
+    (a) mixed forms within one scale: one shard only as a legacy .index/.data pair, the other shards as
+        .shard files beside STALE legacy pairs (an older generation with other bytes) - shards read in both
+        orders: the form is a property of each shard, never of the scale;
+    (b) a chunk of 16 MiB + 12381 bytes (reads above 2^24 bytes), as a .shard file and as a legacy pair."""
+    import contextlib
+    import io
+    import shutil
+    import numpy as np
+    from neuroglancer_scripts import accessor, sharded_base as sb
+    from neuroglancer_scripts.sharded_file_accessor import ShardedFileAccessor
+
+    def write(ds, info, content):
+        w = ShardedFileAccessor(ds)
+        w.store_file("info", json.dumps(info).encode(), mime_type="application/json")
+        for c, data in content.items():
+            w.store_chunk(data, "1mm", c)
+        with contextlib.redirect_stdout(io.StringIO()):
+            w.close()
+        import atexit
+        atexit.unregister(w.close)
+
+    def split_one(scale_dir, stem, hl):
+        data = open(os.path.join(scale_dir, stem + ".shard"), "rb").read()
+        open(os.path.join(scale_dir, stem + ".index"), "wb").write(data[:hl])
+        open(os.path.join(scale_dir, stem + ".data"), "wb").write(data[hl:])
+        os.unlink(os.path.join(scale_dir, stem + ".shard"))
+
+    # ---- (a)
+    size = [128, 128, 64]
+    coords = [(x, x + 64, y, y + 64, 0, 64) for x in (0, 64) for y in (0, 64)]
+    for ti, triple in enumerate([(0, 1, 1), (0, 0, 2)] if quick else [(0, 1, 1), (0, 0, 2), (1, 1, 1), (0, 3, 1)]):
+        info = sharded_info(triple, "raw", "raw", size)
+        hl = 16 * 2 ** triple[1]
+        spec = sb.ShardSpec(triple[1], triple[2], preshift_bits=triple[0])
+        vspec = sb.ShardVolumeSpec([64, 64, 64], size)
+        rw = sb.CMCReadWrite(spec)
+        content = {c: bytes([17 * (k + 1)]) * (9 + k) for k, c in enumerate(coords)}
+        shard_of = {}
+        for c in coords:
+            with np.errstate(all="ignore"):
+                skey = rw.get_shard_key(np.uint64(int(vspec.get_cmc(list(c)))))
+            shard_of[c] = hex(int(skey))[2:].rjust(-(-triple[2] // 4), "0")
+        stems = sorted(set(shard_of.values()))
+        if len(stems) < 2:
+            continue
+        for li, legacy_stem in enumerate(stems[:2]):
+            root = os.path.join(R.tmp, f"mixsite{ti}-{li}")
+            ds = os.path.join(root, "ds")
+            write(ds, info, content)
+            old = os.path.join(R.tmp, f"mixsite{ti}-{li}-old")
+            write(old, info, {c: bytes(255 - x for x in d) + b"stale" for c, d in content.items()})
+            split_legacy(os.path.join(old, "1mm"), hl)
+            for fn in os.listdir(os.path.join(old, "1mm")):
+                if not fn.startswith(legacy_stem + "."):
+                    shutil.copy(os.path.join(old, "1mm", fn), os.path.join(ds, "1mm", fn))
+            shutil.rmtree(old)
+            split_one(os.path.join(ds, "1mm"), legacy_stem, hl)
+            site = httpd.Site(root, rewrite=False, gzip_static=True)
+            with httpd.Server(site) as s:
+                url = s.url + "/ds"
+                first = [c for c in coords if shard_of[c] == legacy_stem]
+                rest = [c for c in coords if shard_of[c] != legacy_stem]
+                for oi, order in enumerate([first + rest, rest + first, [first[0], rest[0], first[-1], rest[-1]]]):
+                    acc = accessor.get_accessor_for_url(url)
+                    local = ShardedFileAccessor(ds)
+                    site.reset()
+                    case = {"dataset": "sharded, mixed forms in one scale", "triple": list(triple),
+                            "legacy_pair_only": legacy_stem, "shard_beside_stale_pair": [x for x in stems if x != legacy_stem],
+                            "read_order": [shard_of[c] for c in order]}
+                    R.case(case, nontrivial=True)
+                    for c in order:
+                        got = run_impl(lambda: acc.fetch_chunk("1mm", c))
+                        loc = run_impl(lambda: local.fetch_chunk("1mm", c))
+                        R.count(f"sharded:mixed-forms:{got[0] if got[0] != 'Crash' else got[1]}")
+                        if got != ["ok", content[c]] or loc != ["ok", content[c]]:
+                            R.violation("a scale holding one shard as a legacy pair and another as a .shard file "
+                                        "(beside a stale pair), read through one accessor: not the stored chunk",
+                                        {**case, "chunk": list(c), "shard": shard_of[c]},
+                                        {"http": h12._short(got), "local": h12._short(loc),
+                                         "stored": h12._short(content[c])})
+                            break
+    # ---- (b)
+    n = (1 << 24) + 12381
+    unit = bytes((5 * k + k // 253) % 256 for k in range(4099))
+    big = (unit * (n // len(unit) + 1))[:n - 16] + b"<<end-of-buffer>"
+    R.notes.append("one chunk of 16 MiB + 12381 bytes per run (sharded, .shard and legacy pair): oracle only "
+                   "(HTTP = local = stored), not sent to the model")
+    for legacy in (True, False):
+        root = os.path.join(R.tmp, f"bigsite{int(legacy)}")
+        ds = os.path.join(root, "ds")
+        triple = (0, 1, 0)
+        co = (0, 64, 0, 64, 0, 64)
+        co2 = (64, 128, 0, 64, 0, 64)
+        write(ds, sharded_info(triple, "raw", "raw", [128, 64, 64]), {co: big, co2: b"small-neighbour"})
+        if legacy:
+            split_legacy(os.path.join(ds, "1mm"), 16 * 2 ** triple[1])
+        site = httpd.Site(root, rewrite=False, gzip_static=True)
+        with httpd.Server(site) as s:
+            acc = accessor.get_accessor_for_url(s.url + "/ds")
+            case = {"dataset": "sharded, one chunk above 16 MiB", "legacy": legacy, "chunk_bytes": n}
+            R.case(case, nontrivial=True)
+            for c, want in ((co, big), (co2, b"small-neighbour"), (co, big)):
+                got = run_impl(lambda: acc.fetch_chunk("1mm", c))
+                loc = run_impl(lambda: ShardedFileAccessor(ds).fetch_chunk("1mm", c))
+                R.count(f"sharded:large-chunk:{'legacy' if legacy else 'shard'}:{got[0] if got[0] != 'Crash' else got[1]}")
+                if got[0] != "ok" or bytes(got[1]) != want or loc[0] != "ok" or bytes(loc[1]) != want:
+                    R.violation("a sharded chunk above 16 MiB read over HTTP is not the stored chunk",
+                                {**case, "chunk": list(c)},
+                                {"http": h12._short(got), "local": h12._short(loc), "stored_bytes": len(want)})
+        shutil.rmtree(root, ignore_errors=True)
+
+
 def multiscale_part(R, n):
     """Sharded datasets with several scales whose `sharding` objects DIFFER (bit triple, data and
     index encoding), every chunk of every scale read through ONE accessor instance, in both scale
@@ -730,6 +845,7 @@ def run(R):
     plain_part(R, 24 if quick else 600)
     sharded_part(R, 21 if quick else 400)
     multiscale_part(R, 6 if quick else 120)
+    special_forms_part(R, quick)
 
 
 def replay(R, payload):
